@@ -7,7 +7,7 @@ HERE = os.path.dirname(os.path.abspath(__file__))
 
 CHECKS = {
     "C01": {
-        "technique": "static analysis: MIR dataflow + impl-table rules (kind-set soundness, dispatch agreement, cache integrity, prefilter guard); must-pass-through of the kind index (every node looked up, every kind registered); sibling agreement of range-overlap boundaries; RuleCollection invariants (bucket uniqueness vs first-bucket readers, both storages read)",
+        "technique": "static analysis: MIR dataflow + impl-table rules (kind-set soundness, dispatch agreement, cache integrity, prefilter guard); must-pass-through of the kind index (every node looked up, every kind registered); sibling agreement of range-overlap boundaries; RuleCollection invariants (bucket uniqueness vs first-bucket readers, both storages read); single-skip-edge rule for find_all",
         "text": "Static structural argument over the type-checked program (MIR of every Matcher impl, impl tables, call graph): decides the necessary conditions under which skipping by node kind or by literal substring cannot drop a match — who may restrict kinds, combinator polarity, cache integrity, skip sites test the matcher they run, strictness guard of the literal prefilter. It holds for all inputs because it is a statement about all paths of the code; it does not decide per-node matching itself. Also decided: every traversed node reaches the kind lookup and every potential kind is registered in the combined index; byte-range overlap filters use the half-open boundary.",
         "note": "Trusted: nightly rustc MIR/trait resolution; bit-set/tree-sitter/regex dependencies; reviewed same-node/other-node classification tables re-derived from MIR each run.",
         "design": "DESIGN.md §2 C01",
@@ -37,7 +37,7 @@ CHECKS = {
         "design": "DESIGN.md §2 C10",
     },
     "C11": {
-        "technique": "static analysis: panic-site audit over the resolved call graph from load/scan roots, recursion (SCC) audit, regex-compile-at-load rule; dynamic-measure check of the rewriter recursion (application chain threaded through the cycle, guard dominates re-entry); dominating-comparison discharge",
+        "technique": "static analysis: panic-site audit over the resolved call graph from load/scan roots, recursion (SCC) audit, regex-compile-at-load rule; dynamic-measure check of the rewriter recursion (application chain threaded through the cycle, guard dominates re-entry); dominating-comparison discharge (also through bool variables); affine symbolic execution of scanner loops (progress)",
         "text": "Static audit: every construct that can panic (MIR Assert terminators, calls into the panicking-API list) or recurse without a stated measure, in workspace code reachable from configuration loading and scanning, is either discharged by a reviewed invariant (with machine-checked guards where one exists) or reported. New unreviewed sites are violations. The rewriter recursion, which has no syntactic measure, is covered by checking that its application chain reaches every hop and that the re-entry guard dominates.",
         "note": "Trusted: reviewed tables under /verif/tables; dependencies (serde_yaml, regex, tree-sitter) do not panic/hang; call graph over-approximates trait calls by all workspace impls.",
         "design": "DESIGN.md §2 C11",
